@@ -157,7 +157,7 @@ class Prop:
         start = None if desc["start"] is None else nodes[desc["start"]]
         coq = (f"({H.coq_forest(tree._root, U)}, "
                f"{H.coq_list(f'({H.nid(n)}, {COQ_V[vd[H.nid(n)][0]]})' for n in nodes)}, "
-               f"{H.coq_opt(None if start is None else H.nid(start))})")
+               f"{'(@None Z)' if start is None else H.coq_opt(H.nid(start))})")
 
         # snapshot of the source by pointers, taken before anything runs
         snap = {id(n): list(n._children or []) for n in [tree._root] + nodes}
